@@ -51,7 +51,9 @@ LEAN_KEYWORDS = {'open', 'end', 'at', 'from', 'fun', 'let', 'have', 'show', 'in'
 LEAN_TYPE = {'img': 'I', 'se': 'S', 'nat': 'Nat', 'int': 'Int', 'bool': 'Bool', 'K': 'K', 'vec': 'List K', 'mode': 'M',
              'arr': 'A', 'natlist': 'List Nat', 'intlist': 'List Int', 'fld': 'X → K', 'bfld': 'X → Bool',
              'hist': 'H', 'pimg': 'G', 'str': 'String', 'mat': 'List (List K)', 'bimg': 'B',
-             'optK': 'Option K', 'optD': 'Option D', 'dtype': 'D', 'shp': 'Sh'}
+             'optK': 'Option K', 'optD': 'Option D', 'dtype': 'D', 'shp': 'Sh',
+             'slice': 'Int × Int', 'slicelist': 'List (Int × Int)', 'shape_pos': 'List Int × List (Int × Int)'}
+LIST_ELEM = {'natlist': 'nat', 'intlist': 'int', 'vec': 'K', 'slicelist': 'slice'}
 
 # guard helpers whose calls (as expression statements) are dropped: translator/guards.py extracts them
 GUARD_CALLS = {'_verify_is_integer_type', '_verify_is_floatingpoint_type', '_verify_is_bool', '_verify_is_nonnegative',
@@ -85,21 +87,26 @@ class Prim:
     `args` = sorts of the kept positional arguments, in the Python order; `kw` = keyword name -> position (keywords that may
     be used instead of a position); positional arguments beyond `args` must be plumbing names or string constants."""
 
-    def __init__(self, field, args, ret, kw=None, doc='', elementwise=False, drop_kw=(), pos=None):
+    def __init__(self, field, args, ret, kw=None, doc='', elementwise=False, drop_kw=(), pos=None, raises=False):
         self.field, self.args, self.ret, self.kw, self.doc = field, list(args), ret, dict(kw or {}), doc
         self.pos = list(pos) if pos is not None else list(range(len(args)))   # Python positions of the kept arguments
         self.drop_kw = set(drop_kw)         # reviewed keywords without value-level meaning (dtype= of a conversion, copy=)
+        self.raises = raises                # the callee may raise: the field returns `Option`, only usable as `a, b = callee(..)`
         self.elementwise = elementwise      # a numpy ufunc of one argument: on a vector it is `List.map`
 
 
 class Target:
-    def __init__(self, module, name, params, ret, family, lean=None, drop=(), consts=None, only=None, fuels=(), locals=None):
+    def __init__(self, module, name, params, ret, family, lean=None, drop=(), consts=None, only=None, fuels=(), locals=None, localsorts=None,
+                 fallthrough_none=False, raises=False):
         self.module, self.name, self.params, self.ret, self.family = module, name, list(params), ret, family
         self.lean = lean or (module[:-3].replace('/', '_') + '_' + name)
         self.drop = set(drop)                   # parameters that are not value-level arguments (PLUMBING parameters are added)
         self.consts = dict(consts or {})        # module-level names readable in the body: name -> (lean text, sort)
         self.only = only
         self.locals = dict(locals or {})        # reviewed signatures of nested `def`s: name -> ([parameter sorts], result sort)
+        self.localsorts = dict(localsorts or {})  # sort of a local that starts as the empty list `x = []`
+        self.fallthrough_none = fallthrough_none  # reviewed: falling off the end (Python returns None) makes every caller raise: `none`
+        self.force_raises = raises              # the body calls a primitive that may raise
         self.fuels = list(fuels)                # reviewed iteration bounds of the `while` loops, in source order (Python expressions)
 
     @property
@@ -123,7 +130,7 @@ class Family:
                 continue
             seen.add(p.field)
             par = lambda t: f'({t})' if '→' in t else t
-            ty = ' → '.join([par(LEAN_TYPE[a]) for a in p.args] + [par(LEAN_TYPE[p.ret])])
+            ty = ' → '.join([par(LEAN_TYPE[a]) for a in p.args] + [f'Option ({LEAN_TYPE[p.ret]})' if p.raises else par(LEAN_TYPE[p.ret])])
             srcs = ', '.join(sorted(k for k, q in self.prims.items() if q.field == p.field))
             out.append(f'  /-- `{srcs}` -/')
             out.append(f'  {p.field} : {ty}')
@@ -140,7 +147,7 @@ class Tr:
         # destination-buffer names are plumbing only when they are PARAMETERS of this function
         self.drop = set(tgt.drop) | {a.arg for a in fdef.args.args if a.arg in PLUMBING}
         self.counter = 0
-        self.raises = any(isinstance(n, ast.Raise) for n in ast.walk(fdef))
+        self.raises = any(isinstance(n, ast.Raise) for n in ast.walk(fdef)) or tgt.force_raises
         self.notes = []                    # (kind, source text) of every construct dropped as a value-level no-op
 
     def note(self, kind, node):
@@ -273,6 +280,12 @@ class Tr:
             if back is None:
                 raise self.err(node, f'comprehension yields sort {sb}')
             return f'(List.map (fun {lname(g.target.id)} => {body}) {seq})', back
+        if isinstance(node, ast.Tuple) and len(node.elts) == 2:
+            a, sa = self._E(node.elts[0], env)
+            b, sb = self._E(node.elts[1], env)
+            if (sa, sb) == ('intlist', 'slicelist'):
+                return f'({a}, {b})', 'shape_pos'
+            raise self.err(node, f'tuple of sorts {sa},{sb}')
         if isinstance(node, ast.Call):
             return self.call(node, env, want)
         if isinstance(node, ast.Subscript):
@@ -308,6 +321,26 @@ class Tr:
 
     def binop(self, node, env, want):
         op = type(node.op)
+        if op is ast.Pow and isinstance(node.left, ast.Constant) and isinstance(node.left.value, int) \
+                and not isinstance(node.left.value, bool):
+            e, se = self._E(node.right, env)
+            if se == 'natlit':
+                return f'({node.left.value} ^ {e})', 'natlit'
+            if se == 'intlist':                     # `2 ** v` of an array of integral values: elementwise
+                return f'(List.map (fun e => ({node.left.value} : Int) ^ (Int.toNat e)) {e})', 'intlist'
+        if op in (ast.Add, ast.Sub, ast.FloorDiv) and not isinstance(node.left, ast.Constant):
+            a, sa = self._E(node.left, env)
+            if sa == 'intlist':                     # integer arrays: elementwise with a scalar / with an array of the same length
+                b, sb = self._E(node.right, env)
+                sym = {ast.Add: '+', ast.Sub: '-'}.get(op)
+                if sb == 'intlist' and sym:
+                    return f'(List.zipWith (fun a b => a {sym} b) {a} {b})', 'intlist'
+                if sb in ('nat', 'int', 'natlit'):
+                    b = self.coerce(b, sb, 'int', node) if sb != 'natlit' else f'({b} : Int)'
+                    if sym:
+                        return f'(List.map (fun t => t {sym} {b}) {a})', 'intlist'
+                    return f'(List.map (fun t => Int.fdiv t {b}) {a})', 'intlist'
+                raise self.err(node, f'arithmetic on sorts {sa},{sb}')
         if op is ast.Pow:
             if isinstance(node.right, ast.Constant) and node.right.value == 2:
                 a, s = self._E(node.left, env, want)
@@ -511,9 +544,28 @@ class Tr:
             if sa == 'fld' and sb in ('K', 'nat', 'int', 'natlit'):
                 b = self.coerce(b, sb, 'K', node)
                 return f'(fun p => if {b} < ({a} p) then {b} else ({a} p))', 'fld'
+        if d == 'len' and len(node.args) == 1 and not node.keywords:
+            a, sa = self._E(node.args[0], env)
+            if sa in LIST_ELEM:
+                return f'(List.length {a})', 'nat'
+        if d == 'np.min' and len(node.args) == 1 and not node.keywords:
+            a, sa = self._E(node.args[0], env)
+            if sa == 'intlist':
+                return f'(listMinI {a})', 'int'    # prelude; numpy raises on an empty array: reviewed call sites test the length first
+        if d == 'np.floor' and len(node.args) == 1 and not node.keywords and isinstance(node.args[0], ast.Call) \
+                and dotted(node.args[0].func) == 'np.log2' and len(node.args[0].args) == 1 and not node.args[0].keywords \
+                and 'np.floor(np.log2)' in self.fam.prims:
+            p = self.fam.prims['np.floor(np.log2)']
+            a, sa = self._E(node.args[0].args[0], env)
+            if sa == 'intlist':
+                return f'(List.map P.{p.field} {a})', 'intlist'
+        if d == 'slice' and len(node.args) == 2 and not node.keywords:
+            a, _ = self.E(node.args[0], env, 'int')
+            b, _ = self.E(node.args[1], env, 'int')
+            return f'({a}, {b})', 'slice'
         if d == 'tuple' and len(node.args) == 1 and not node.keywords:
             a, sa = self._E(node.args[0], env)
-            if sa in ('natlist', 'intlist'):
+            if sa in ('natlist', 'intlist', 'slicelist'):
                 return a, sa                           # a tuple of indices is its list
         if d == 'float' and len(node.args) == 1 and not node.keywords and 'K' in self.fam.tparams:
             a, s = self._E(node.args[0], env)
@@ -530,6 +582,12 @@ class Tr:
         # x.copy()
         if isinstance(node.func, ast.Attribute) and node.func.attr in IDENTITY_METHODS and not node.args and not node.keywords:
             return self._E(node.func.value, env, want)
+        if isinstance(node.func, ast.Attribute) and node.func.attr == 'astype' and len(node.args) == 1 \
+                and dotted(node.args[0]) == 'int' and all(k.arg == 'copy' for k in node.keywords):
+            a, sa = self._E(node.func.value, env)
+            if sa == 'intlist':                     # an array of integral floats converted to int: the same integers
+                self.note('identity-cast', node)
+                return a, sa
         d = dotted(node.func)
         recv = None
         if d in env and env[d].startswith('fn:'):
@@ -560,6 +618,8 @@ class Tr:
             else:
                 raise self.err(node, f'call of {d or "<expr>"} is not in the primitive table of family {self.fam.name}')
         p = self.fam.prims[d]
+        if p.raises and not getattr(self, '_allow_raising', False):
+            raise self.err(node, f'{d} may raise: only `a, b = {d}(..)` as a statement is in the subset')
         pos = ([recv] if recv is not None else []) + list(node.args)
         slots = [None] * len(p.args)
         for i, a in enumerate(pos):
@@ -613,6 +673,8 @@ class Tr:
                     tg = [n.target]
                 elif isinstance(n, ast.Expr) and isinstance(n.value, ast.Call):
                     tg = [kw.value for kw in n.value.keywords if kw.arg == 'out' and isinstance(kw.value, ast.Name)]
+                    if isinstance(n.value.func, ast.Attribute) and n.value.func.attr == 'append' and isinstance(n.value.func.value, ast.Name):
+                        tg = tg + [n.value.func.value]
                 for t in tg:
                     while isinstance(t, ast.Subscript):
                         t = t.value
@@ -652,6 +714,8 @@ class Tr:
         pad = '  ' * ind
         if not stmts:
             if k is None:
+                if self.t.fallthrough_none and self.raises and getattr(self, '_ret', None) is None:
+                    return [pad + 'none']
                 raise TranslationError(f'{self.t.module}:{self.t.name}: a path falls off the end of the body without `return`')
             return k(env, ind)
         s, rest = stmts[0], stmts[1:]
@@ -661,6 +725,12 @@ class Tr:
             if isinstance(s.value, ast.Call) and (dotted(s.value.func) or '').split('.')[-1] in GUARD_CALLS:
                 self.note('guard-helper', s)
                 return self.S(rest, env, k, ind)                        # guard helper: translator/guards.py
+            if isinstance(s.value, ast.Call) and isinstance(s.value.func, ast.Attribute) and s.value.func.attr == 'append' \
+                    and isinstance(s.value.func.value, ast.Name) and env.get(s.value.func.value.id) in LIST_ELEM \
+                    and len(s.value.args) == 1 and not s.value.keywords:
+                x = s.value.func.value.id                                   # `x.append(e)`: `x = x + [e]`
+                e, _ = self.E(s.value.args[0], env, LIST_ELEM[env[x]])
+                return [pad + f'let {lname(x)} := {lname(x)} ++ [{e}]'] + self.S(rest, env, k, ind)
             if isinstance(s.value, ast.Call):
                 outs = [kw for kw in s.value.keywords if kw.arg == 'out']
                 if len(outs) == 1 and isinstance(outs[0].value, ast.Name) and outs[0].value.id in env \
@@ -677,7 +747,10 @@ class Tr:
             if s.value is None:
                 raise self.err(s, 'bare return')
             if getattr(self, '_inloop', 0):
-                raise self.err(s, '`return` inside a loop')
+                if not self._loops[-1].get('ret') or getattr(self, '_ret', None):
+                    raise self.err(s, '`return` inside a loop that is not a reviewed search loop')
+                txt, _ = self.E(s.value, env, self.t.ret)
+                return self._loop_exit(env, ind, False, ret=txt)
             txt, _ = self.E(s.value, env, getattr(self, '_ret', None) or self.t.ret)
             return [pad + (f'some {txt}' if self.raises else txt)]
         if isinstance(s, ast.Raise):
@@ -733,6 +806,22 @@ class Tr:
                     lines.append(pad + f'let {lname(n)} := P.{p.field} {a_} {i}')
                     env2[n] = p.ret
                 return lines + self.S(rest, env2, k, ind)
+            if isinstance(val, ast.Call) and dotted(val.func) in self.fam.prims and self.fam.prims[dotted(val.func)].raises \
+                    and len(names) == 2 and self.fam.prims[dotted(val.func)].ret == 'shape_pos' and self.raises \
+                    and not getattr(self, '_inloop', 0):
+                # `a, b = callee(..)` of a callee that may raise: `match … with | none => none | some r => …`
+                p = self.fam.prims[dotted(val.func)]
+                self._allow_raising = True
+                try:
+                    txt, _ = self._E(val, env)
+                finally:
+                    self._allow_raising = False
+                r = self.fresh('r')
+                env2 = dict(env)
+                env2[names[0]], env2[names[1]] = 'intlist', 'slicelist'
+                return [pad + f'match {txt} with', pad + '| none => none', pad + f'| some {r} =>',
+                        pad + f'  let {lname(names[0])} := {r}.1', pad + f'  let {lname(names[1])} := {r}.2'] \
+                    + self.S(rest, env2, k, ind + 1)
             raise self.err(s, 'tuple assignment outside the subset')
         if isinstance(s, (ast.Assign, ast.AugAssign)):
             if isinstance(s, ast.Assign):
@@ -772,6 +861,11 @@ class Tr:
                     self.note('destination-buffer', s)
                     return self.S(rest, env, k, ind)
                 raise self.err(s, 'assignment to a destination-buffer name that is not `_get_output(...)`')
+            if isinstance(val, ast.List) and not val.elts and tgt.id in self.t.localsorts:
+                so = self.t.localsorts[tgt.id]
+                env2 = dict(env)
+                env2[tgt.id] = so
+                return [pad + f'let {lname(tgt.id)} := ([] : {LEAN_TYPE[so]})'] + self.S(rest, env2, k, ind)
             txt, sort = self.E(val, env, env.get(tgt.id) if env.get(tgt.id) in ('K', 'vec') else None)
             if sort == 'natlit':
                 sort = 'nat'
@@ -891,7 +985,7 @@ class Tr:
         names = [n.id for n in ast.walk(test) if isinstance(n, ast.Name)]
         return bool(names) and all(n in self.drop for n in names)
 
-    def _loop_exit(self, env, ind, brk):
+    def _loop_exit(self, env, ind, brk, ret=None):
         lp = self._loops[-1]
         for n in lp['state']:
             if env.get(n) != lp['sorts'][n]:
@@ -899,16 +993,30 @@ class Tr:
         tup = [lname(n) for n in lp['state']]
         if lp['brk']:
             tup = ['true' if brk else 'false'] + tup
+        if lp.get('ret'):
+            tup = [f'(some {ret})' if ret is not None else 'none'] + tup
         return ['  ' * ind + (tup[0] if len(tup) == 1 else '(' + ', '.join(tup) + ')')]
 
     def for_loop(self, s, rest, env, k, ind):
         pad = '  ' * ind
         if s.orelse:
             raise self.err(s, 'for/else')
-        if not isinstance(s.target, ast.Name):
-            raise self.err(s, 'loop target outside the subset')
         it = s.iter
-        if isinstance(it, ast.Call) and dotted(it.func) == 'range' and not it.keywords and 1 <= len(it.args) <= 2:
+        unpack = []                                     # `for a, b in zip(xs, ys)`: the element is a pair
+        if isinstance(s.target, ast.Tuple) and len(s.target.elts) == 2 and all(isinstance(e, ast.Name) for e in s.target.elts) \
+                and isinstance(it, ast.Call) and dotted(it.func) == 'zip' and len(it.args) == 2 and not it.keywords:
+            xs, sx = self._E(it.args[0], env)
+            ys, sy = self._E(it.args[1], env)
+            if sx not in LIST_ELEM or sy not in LIST_ELEM:
+                raise self.err(s, f'zip over sorts {sx},{sy}')
+            seq = f'(List.zip {xs} {ys})'
+            lvar = self.fresh('zz')
+            vty = f'{LEAN_TYPE[LIST_ELEM[sx]]} × {LEAN_TYPE[LIST_ELEM[sy]]}'
+            unpack = [(s.target.elts[0].id, LIST_ELEM[sx], f'{lvar}.1'), (s.target.elts[1].id, LIST_ELEM[sy], f'{lvar}.2')]
+            targets = {u[0] for u in unpack}
+        elif not isinstance(s.target, ast.Name):
+            raise self.err(s, 'loop target outside the subset')
+        elif isinstance(it, ast.Call) and dotted(it.func) == 'range' and not it.keywords and 1 <= len(it.args) <= 2:
             if len(it.args) == 1:
                 n, _ = self.E(it.args[0], env, 'nat')
                 seq = f"(List.range' 0 {n})"
@@ -916,41 +1024,65 @@ class Tr:
                 a, _ = self.E(it.args[0], env, 'nat')
                 b, _ = self.E(it.args[1], env, 'nat')
                 seq = f"(List.range' {a} ({b} - {a}))"
-            vsort = 'nat'
+            lvar, vty, targets = lname(s.target.id), 'Nat', {s.target.id}
+            unpack = [(s.target.id, 'nat', None)]
         else:
             sq, ss = self._E(it, env)
             if ss != 'vec':
                 raise self.err(s, f'iteration over sort {ss}')
-            seq, vsort = sq, 'K'
+            seq = sq
+            lvar, vty, targets = lname(s.target.id), 'K', {s.target.id}
+            unpack = [(s.target.id, 'K', None)]
         body_assigned = [n for n in self.assigned(s.body) if n not in self.drop]
-        state = sorted(n for n in body_assigned if n in env and n != s.target.id)
+        state = sorted(n for n in body_assigned if n in env and n not in targets)
         brk = any(isinstance(n, ast.Break) for n in ast.walk(s))
-        if not state:
+
+        def direct_returns(ss):                         # `return` in this loop's body, not inside a nested loop / def
+            for st in ss:
+                if isinstance(st, ast.Return):
+                    return True
+                if isinstance(st, ast.If) and (direct_returns(st.body) or direct_returns(st.orelse)):
+                    return True
+            return False
+        ret = direct_returns(s.body)                    # a search loop: the state carries `Option <result>`, the first hit wins
+        if ret and (getattr(self, '_inloop', 0) or getattr(self, '_ret', None)):
+            raise self.err(s, '`return` inside a nested loop / nested def')
+        if not state and not ret:
             raise self.err(s, 'loop without effect on variables defined before it')
-        lp = dict(state=state, sorts={n: env[n] for n in state}, brk=brk)
+        lp = dict(state=state, sorts={n: env[n] for n in state}, brk=brk, ret=ret)
         self._loops = getattr(self, '_loops', []) + [lp]
         self._inloop = getattr(self, '_inloop', 0) + 1
         v = self.fresh('st')
-        nst = len(state) + (1 if brk else 0)
-        tys = (['Bool'] if brk else []) + [LEAN_TYPE[env[n]] for n in state]
-        lines = [pad + f'let {v} := List.foldl (fun ({v} : {" × ".join(tys)}) ({lname(s.target.id)} : {LEAN_TYPE[vsort]}) =>']
+        lead = (1 if ret else 0) + (1 if brk else 0)
+        nst = len(state) + lead
+        tys = ([f'Option ({LEAN_TYPE[self.t.ret]})'] if ret else []) + (['Bool'] if brk else []) + [LEAN_TYPE[env[n]] for n in state]
+        lines = [pad + f'let {v} := List.foldl (fun ({v} : {" × ".join(tys)}) ({lvar} : {vty}) =>']
         inner = ind + 2
         ipad = '  ' * inner
+        if ret:
+            lines.append(ipad + f'if ({self.proj(v, 0, nst)}).isSome then {v} else')
         if brk:
-            lines.append(ipad + f'if {self.proj(v, 0, nst)} then {v} else')
+            lines.append(ipad + f'if {self.proj(v, 1 if ret else 0, nst)} then {v} else')
         for i, n in enumerate(state):
-            lines.append(ipad + f'let {lname(n)} := {self.proj(v, i + (1 if brk else 0), nst)}')
+            lines.append(ipad + f'let {lname(n)} := {self.proj(v, i + lead, nst)}')
         env_in = dict(env)
-        env_in[s.target.id] = vsort
+        for n, so, prj in unpack:
+            env_in[n] = so
+            if prj is not None:
+                lines.append(ipad + f'let {lname(n)} := {prj}')
         lines += self.S(list(s.body), env_in, lambda e, i: self._loop_exit(e, i, False), inner)
-        init = (['false'] if brk else []) + [lname(n) for n in state]
+        init = (['none'] if ret else []) + (['false'] if brk else []) + [lname(n) for n in state]
         lines.append(ipad[:-2] + ') ' + (init[0] if len(init) == 1 else '(' + ', '.join(init) + ')') + ' ' + seq)
         self._loops = self._loops[:-1]
         self._inloop -= 1
-        for i, n in enumerate(state):
-            lines.append(pad + f'let {lname(n)} := {self.proj(v, i + (1 if brk else 0), nst)}')
         env2 = {n: t for n, t in env.items()}           # loop-local variables do not survive (refused if read later)
-        return lines + self.S(rest, env2, k, ind)
+        after = [f'let {lname(n)} := {self.proj(v, i + lead, nst)}' for i, n in enumerate(state)]
+        if ret:
+            r = self.fresh('r')
+            lines += [pad + f'match {self.proj(v, 0, nst)} with', pad + f'| some {r} => ' + (f'some {r}' if self.raises else r),
+                      pad + '| none =>']
+            return lines + ['  ' * (ind + 1) + a for a in after] + self.S(rest, env2, k, ind + 1)
+        return lines + [pad + a for a in after] + self.S(rest, env2, k, ind)
 
     def while_loop(self, s, rest, env, k, ind):
         pad = '  ' * ind
@@ -1125,6 +1257,19 @@ COLORS2 = Family(
         'xyz2lab': Prim('xyz2lab', ['arr', 'optD'], 'arr', kw={'dtype': 1}, doc='instantiated with the generated `colors_xyz2lab`'),
     }, extra_params=EMBED, prop='C20')
 
+WAVE = Family(
+    'wavelet center', ['K', 'A', 'D'], '', 'WavePrims',
+    {
+        'np.floor(np.log2)': Prim('floor_log2', ['int'], 'int', doc='`np.floor(np.log2(o))` of one positive side, as an integer'),
+        '_wavelet_center_compute': Prim('center_compute', ['intlist', 'int'], 'shape_pos', raises=True,
+                                        doc='instantiated with the generated `convolve__wavelet_center_compute`'),
+        'np.zeros': Prim('zeros', ['intlist', 'dtype'], 'arr', kw={'dtype': 1}),
+        'arr+K': Prim('add_scalar', ['arr', 'K'], 'arr', doc='`a += v` on an array'),
+        'setitem': Prim('setslice', ['arr', 'slicelist', 'arr'], 'arr', doc='`a[tuple(slices)] = b`'),
+        '[]': Prim('getslice', ['arr', 'slicelist'], 'arr', doc='`a[tuple(slices)]`'),
+        '.shape:arr': Prim('shape', ['arr'], 'intlist'),
+    }, prop='C17')
+
 HISTO = Family(
     'histogram thresholds', ['H', 'G'], '', 'HistPrims',
     {
@@ -1181,8 +1326,13 @@ TARGETS = [
     Target('colors.py', 'xyz2lab', [('xyz', 'arr'), ('dtype', 'optD')], 'arr', COLORS2, locals={'f': (['fld'], 'fld')}),
     Target('colors.py', 'rgb2lab', [('rgb', 'arr'), ('dtype', 'optD')], 'arr', COLORS2),
     Target('colors.py', 'rgb2sepia', [('rgb', 'fld')], 'fld', COLORS2),
+    # falls off the end after 63 unsuccessful steps: Python returns None and both callers fail on the tuple unpacking
+    Target('convolve.py', '_wavelet_center_compute', [('oshape', 'intlist'), ('border', 'int')], 'shape_pos', WAVE,
+           drop={'dtype', 'cval'}, localsorts={'position': 'slicelist'}, fallthrough_none=True),
+    Target('convolve.py', 'wavelet_center', [('f', 'arr'), ('border', 'int'), ('dtype', 'dtype'), ('cval', 'K')], 'arr', WAVE, raises=True),
+    Target('convolve.py', 'wavelet_decenter', [('w', 'arr'), ('oshape', 'intlist'), ('border', 'int')], 'arr', WAVE, raises=True),
 ]
-FAMILIES = [MORPH, CONV, THRESH, HISTO, LAPL, RC, SOFT, EXTREMA, STRETCH, COLORS, COLORS2]
+FAMILIES = [MORPH, CONV, THRESH, HISTO, LAPL, RC, SOFT, EXTREMA, STRETCH, COLORS, COLORS2, WAVE]
 
 
 def _find_function(tree, name):
@@ -1239,6 +1389,10 @@ PRELUDE = ['/- GENERATED by translator/pybody.py. Shared prelude of the translat
            'def whileFuel {σ : Type} : Nat → (σ → Bool) → (σ → σ) → σ → σ',
            '  | 0, _, _, s => s',
            '  | n + 1, c, b, s => if c s then whileFuel n c b (b s) else s', '',
+           '/-- `np.min` of a non-empty integer array (numpy raises on an empty one: the reviewed call sites test the length first) -/',
+           'def listMinI : List Int → Int',
+           '  | [] => 0',
+           '  | x :: xs => xs.foldl (fun a b => if b < a then b else a) x', '',
            'end Mahotas.Generated.Py', '']
 
 
